@@ -167,7 +167,9 @@ type Devices struct {
 	Respond func(target string, n int) error
 	// SkipLog is set by Respond when the request never reached the device (unreachable / superseded)
 	SkipLog bool
-	nSets   int
+	// After is called when a request that was counted as an effect has been dealt with by the device
+	After func()
+	nSets int
 }
 
 // NewDevices returns an empty device set.
@@ -291,6 +293,11 @@ func (c *conn) Set(ctx context.Context, r *gpb.SetRequest) (*gpb.SetResponse, er
 	}
 	for p, v := range req.Updates {
 		st[p] = v
+	}
+	if after := d.After; after != nil {
+		d.mu.Unlock()
+		after()
+		d.mu.Lock()
 	}
 	return &gpb.SetResponse{}, nil
 }
